@@ -235,6 +235,11 @@ class ImpTr(py2coq.FuncTr):
         self.extra_params = {}       # parameters standing for expressions on self
         self.closures = {}           # name -> FunctionDef (locally defined functions in scope)
         self.call = sig.get("call")  # how the returned closure is called: {"args": {name: type}, "star": (name, type)}
+        # lists are VALUES in the translation: a store through one name must not be visible through another
+        self.fresh = set()           # locals bound to a list object created by the function itself
+        self.aliased = set()         # list-typed names that (may) share their object with another name / container
+        self.mutated = set()         # names stored into with a[i] = v
+        self.may_mutate = set()      # parameters of an inlined closure whose mutation IS the result
 
     # ----------------------------------------------------------------- helpers
     def temp(self):
@@ -304,6 +309,8 @@ class ImpTr(py2coq.FuncTr):
             return True
         if isinstance(e, ast.BinOp) and isinstance(e.op, (ast.Add, ast.Mult)):
             return self.nonneg(e.left) and self.nonneg(e.right)
+        if isinstance(e, ast.IfExp):
+            return self.nonneg(e.body) and self.nonneg(e.orelse)
         return self.positive(e)
 
     def positive(self, e):
@@ -317,6 +324,8 @@ class ImpTr(py2coq.FuncTr):
             return (self.positive(e.left) and self.nonneg(e.right)) or (self.nonneg(e.left) and self.positive(e.right))
         if isinstance(e, ast.BinOp) and isinstance(e.op, ast.Mult):
             return self.positive(e.left) and self.positive(e.right)
+        if isinstance(e, ast.IfExp):
+            return self.positive(e.body) and self.positive(e.orelse)
         return False
 
     def e_BinOp(self, e):
@@ -452,7 +461,20 @@ class ImpTr(py2coq.FuncTr):
             raise Unsupported("%s.index(%s) at line %d" % (t, xt, e.lineno))
         raise Unsupported("call %s at line %d" % (ast.unparse(f), e.lineno))
 
+    def is_fresh(self, e):
+        """e evaluates to a list object nothing else refers to"""
+        if isinstance(e, (ast.List, ast.ListComp)):
+            return True
+        if isinstance(e, ast.BinOp) and isinstance(e.op, (ast.Mult, ast.Add)):
+            return True
+        if isinstance(e, ast.Call) and isinstance(e.func, ast.Name) and e.func.id in ("list", "sorted"):
+            return True
+        return False
+
     def e_List(self, e):
+        for x in e.elts:
+            if isinstance(x, ast.Name) and self.env.get(x.id, "").startswith(("list[", "dict[")):
+                self.aliased.add(x.id)           # the element shares its object with the name
         if any(isinstance(x, ast.Starred) for x in e.elts):
             raise Unsupported("starred list element at line %d" % e.lineno)
         if not e.elts:
@@ -549,6 +571,13 @@ class ImpTr(py2coq.FuncTr):
             self.closures.pop(name, None)
             pre = self.take()
             self.env[name] = t
+            if t.startswith("list[") or t.startswith("dict["):
+                if self.is_fresh(value):
+                    self.fresh.add(name)
+                else:
+                    self.fresh.discard(name)
+                    self.aliased.add(name)
+                    self.aliased.update(n.id for n in ast.walk(value) if isinstance(n, ast.Name))
             return pre + "let %s := %s in\n" % (self.unit.ident(name), v)
         if isinstance(target, ast.Subscript) and isinstance(target.value, ast.Name) and not isinstance(target.slice, ast.Slice):
             name = target.value.id
@@ -557,6 +586,9 @@ class ImpTr(py2coq.FuncTr):
             lt = self.env[name]
             if not lt.startswith("list["):
                 raise Unsupported("subscript assignment on %s at line %d" % (lt, ln))
+            if name not in self.fresh and name not in self.may_mutate:
+                raise Unsupported("store into %s, which is not a list created by this function (aliasing) at line %d" % (name, ln))
+            self.mutated.add(name)
             a = self.unit.ident(name)
             # Python: container, index, (old element for +=), right-hand side, store
             i, it = self.expr(target.slice)
@@ -755,6 +787,7 @@ class ImpTr(py2coq.FuncTr):
         if len(mutated) != 1 or contains(g.body, (ast.Return,)) is not None:
             raise Unsupported("closure %s must mutate exactly one of its arguments and return None (line %d)" % (name, g.lineno))
         self.ret = self.env[mutated[0]]
+        self.may_mutate.add(mutated[0])
         body = self.stmts(g.body, lambda: "Ok %s" % self.unit.ident(mutated[0]))
         self.env, self.closures, self.ret = saved_env, saved_cl, saved_ret
         inner = opener + (textwrap.indent(body, "  ") if closer else body) + closer
@@ -763,6 +796,9 @@ class ImpTr(py2coq.FuncTr):
     # ----------------------------------------------------------------- function
     def translate(self):
         body = self.stmts(self.fdef.body, None)
+        both = (self.mutated - self.may_mutate) & self.aliased
+        if both:
+            raise Unsupported("%s: list %s is stored into and also aliased" % (self.fdef.name, sorted(both)))
         params = []
         for n, t in self.extra_params.items():
             params.append("(%s : %s)" % (n, self.unit.coq_type(t)))
